@@ -7,9 +7,10 @@ TECHNIQUE = 'exhaustiveness over the instruction enumeration in generator / inte
 CLAIM = ('Decides statically for every key: the ten instruction kinds (14 enumerators) are handled exhaustively by generator, interpreter and x86 emitter; each operand rule of Table 6.1.1 is enforced by a guard on the register / immediate choice '
          '(dst != src where required, r5 never the destination of IADD_RS, non-zero rotation, reciprocal divisor neither 0 nor 2^k); the program can never exceed 3*170+2 instructions and the buffer has that size; the address register is the '
          'arg-max of the recomputed dependency-chain lengths; macro-op, decoder-group and slot tables equal the specification; the interpreter applies the specified operation per kind; the x86 emitter encodes immediates only as '
-         'full 32-bit fields or provably 7-bit counts. Which program a given key yields, termination of the two rejection loops (probabilistic) and equality of native and interpreted register values are not claimed.')
+         'full 32-bit fields or provably 7-bit counts. Which program a given key yields, termination of the two rejection loops (probabilistic) and equality of native and interpreted register values are not claimed.'
+         ' The A64 and RV64 SuperscalarHash emitters also have an executing case for each of the 14 kinds.')
 LEVEL_NOTE = 'Trusted: clang AST; spec tables as oracle; the scheduling simulation (port model) is compared only through its tables, its control flow is not re-derived.'
-EXPLANATION = 'SS-EXH (14 x 5), SS-RULES, SS-SIZE, SS-ADDRREG, SPEC-SSTABLES, SS-EXEC, IMM-ENC, SPEC-BLAKEGEN.'
+EXPLANATION = 'SS-EXH (14 x 5), SS-RULES, SS-SIZE, SS-ADDRREG, SPEC-SSTABLES, SS-EXEC, IMM-ENC, SPEC-BLAKEGEN. SS-EXH for A64 / RV64.'
 
 
 def run(ctx, R):
